@@ -37,9 +37,8 @@ type kid struct {
 func (k kref) kid() kid { return kid{k.id, k.flags} }
 
 type oracle struct {
-	now         int64
-	cfg         map[kid]bool
-	tombDamaged bool
+	now int64
+	cfg map[kid]bool
 
 	streak   map[kid]int64  // start of the unbroken presence streak
 	broken   map[kid]string // why the last streak ended
@@ -49,11 +48,12 @@ type oracle struct {
 	stateBad bool           // state file was replaced by garbage and not yet rewritten
 	flagged  map[kid]string // keys already reported by the hold-down clause, with the reason
 	closed   map[int]bool   // revocation accepted by the running process, no record could be written
+	missing  map[kid]int64  // start of the current absence of a trusted key (first recorded refresh without it)
 }
 
 func newOracle(cfg []kref) *oracle {
 	o := &oracle{cfg: map[kid]bool{}, streak: map[kid]int64{}, broken: map[kid]string{}, earned: map[kid]bool{},
-		durable: map[int]bool{}, lostBy: map[int]string{}, flagged: map[kid]string{}, closed: map[int]bool{}}
+		durable: map[int]bool{}, lostBy: map[int]string{}, flagged: map[kid]string{}, closed: map[int]bool{}, missing: map[kid]int64{}}
 	for _, k := range cfg {
 		o.cfg[k.kid()] = true
 	}
@@ -69,7 +69,7 @@ type entry struct {
 func parseObsState(s string) (map[uint16]entry, bool) {
 	out := map[uint16]entry{}
 	switch s {
-	case "absent", "corrupt", "unreadable":
+	case "absent", "corrupt", "unreadable", "zero":
 		return out, false
 	case "empty":
 		return out, true
@@ -98,7 +98,7 @@ func parseObsState(s string) (map[uint16]entry, bool) {
 func parseObsTomb(s string) (map[int]bool, string) {
 	out := map[int]bool{}
 	switch s {
-	case "absent", "corrupt", "unreadable", "empty":
+	case "absent", "corrupt", "unreadable", "empty", "zero":
 		return out, s
 	}
 	for _, e := range strings.Split(s, ",") {
@@ -124,6 +124,9 @@ func (o *oracle) seeded(s *sim) {
 		}
 		if e.st == "V" || e.st == "M" {
 			o.earned[e.key.kid()] = true
+		}
+		if e.st == "M" {
+			o.missing[e.key.kid()] = s.V - e.age*60
 		}
 	}
 	tb, _ := parseObsTomb(s.obsTomb())
@@ -203,8 +206,8 @@ func fail(sig, format string, a ...any) string {
 // recordOf reports whether the decoded files carry a record of m's revocation.
 func recordOf(stateObs, tombObs string, m int) bool {
 	tb, kind := parseObsTomb(tombObs)
-	if kind == "corrupt" {
-		return true // nothing can be trusted while the store is corrupt
+	if kind == "corrupt" || kind == "zero" {
+		return true // nothing can be trusted while the store does not decode
 	}
 	if tb[m] {
 		return true
@@ -492,6 +495,18 @@ func (o *oracle) after(s *sim, sp *runSpec, pre *preState, outcome string) (stri
 	if pre.tomb == "corrupt" && !sp.fTombRd && completed && len(liveAfter) > 0 {
 		flag(fail("autota/corrupt-tombstones/not-fail-closed", "live=%s", joinRefs(liveAfter)))
 	}
+	// ... and so does one that exists with zero length (only NotExist is an empty store)
+	if pre.tomb == "zero" && completed && len(liveAfter) > 0 {
+		flag(fail("autota/zero-length-tombstones/not-fail-closed", "live=%s tomb zero -> %s", joinRefs(liveAfter), tombAfter))
+	}
+	// ... and one that cannot be opened / read
+	if sp.fTombRd && completed && len(liveAfter) > 0 {
+		flag(fail("autota/unreadable-tombstones/not-fail-closed", "live=%s", joinRefs(liveAfter)))
+	}
+	// whatever does not load is left alone: an undecodable or unreadable store is never replaced
+	if (pre.tomb == "corrupt" || pre.tomb == "zero" || sp.fTombRd) && tombAfter != pre.tomb {
+		flag(fail("autota/unloadable-tombstones/store-replaced", "tomb %s -> %s", pre.tomb, tombAfter))
+	}
 
 	// ---- clause: new keys need the 30-day hold-down in every accepted refresh
 	if accepted && full {
@@ -531,6 +546,13 @@ func (o *oracle) after(s *sim, sp *runSpec, pre *preState, outcome string) (stri
 		}
 	}
 	if accepted && full && stateLanded {
+		for _, k := range trusted {
+			if hasKey(sp.fetch, k.id, k.flags) {
+				delete(o.missing, k.kid())
+			} else if _, ok := o.missing[k.kid()]; !ok {
+				o.missing[k.kid()] = o.now
+			}
+		}
 		inSet := map[kid]bool{}
 		for _, k := range sp.fetch {
 			inSet[k.kid()] = true
@@ -562,9 +584,11 @@ func (o *oracle) after(s *sim, sp *runSpec, pre *preState, outcome string) (stri
 			if tbBefore[k.id] || markerFor(stBefore, k.id) {
 				continue
 			}
-			since := o.now
-			if e, ok := stBefore[k.tag]; ok && e.key.kid() == k.kid() && e.st == "M" {
-				since = o.now - e.age*60
+			// the 90 days run from the first recorded refresh that lacked the key — the
+			// oracle's own record, never the implementation's stamp
+			since, seen := o.missing[k.kid()]
+			if !seen {
+				since = o.now
 			}
 			if o.now-since <= d90 && !hasKey(liveAfter, k.id, k.flags) {
 				flag(fail("autota/missing/dropped-before-90d", "%s missing for %d s live=%s", k, o.now-since, joinRefs(liveAfter)))
